@@ -29,8 +29,10 @@ SYMBOLS = {
     "mixed": [0, [], "c", ["t", 1]],
     "nul": ["\x00", "b", "\u00e9", "d"],
     "bool": [True, False, "c", 2],
+    # distinct symbols with equal hashes (CPython: hash(-1) == hash(-2) == -2, hash(2**61-1) == hash(0) == 0)
+    "hashcollide": [-1, -2, 2**61 - 1, 0],
 }
-ALPHABETS = [["a", "b"]] * 6 + [[0, 1], [5, 7], [0, []], ["a", ["t", 1]]]
+ALPHABETS = [["a", "b"]] * 6 + [[0, 1], [5, 7], [0, []], ["a", ["t", 1]], [-1, -2]]
 
 
 def resymbol(g, mode):
@@ -384,7 +386,7 @@ def grammar(draw, regimes=("BOOL", "MT", "FREE", "QQ", "FLOAT"), shape=None, sym
         g["rules"] = [[(draw(st.sampled_from(["1e-13", "3e-14", "1e-30", "1e-300"])) if draw(st.integers(0, 3)) == 0 else w), h, b] for w, h, b in g["rules"]]
         g["tiny"] = True
     if symbols:
-        g = resymbol(g, draw(st.sampled_from(["str"] * 7 + ["int0", "intsparse", "mixed", "bool"])))
+        g = resymbol(g, draw(st.sampled_from(["str"] * 7 + ["int0", "intsparse", "mixed", "bool", "hashcollide"])))
     return g
 
 
@@ -499,10 +501,15 @@ def _end_weight(draw, regime):
 
 
 @st.composite
-def automaton(draw, regime="QQ", max_states=4, max_arcs=8, alphabet=("a", "b"), eps=True, acyclic=False, pool=None, boost=None, labels=None, signed=False, min_states=1):
+def automaton(draw, regime="QQ", max_states=4, max_arcs=8, alphabet=("a", "b"), eps=True, acyclic=False, pool=None, boost=None, labels=None, signed=False, min_states=1, dynrange=False):
     n = draw(st.integers(min(min_states, max_states), max_states))
     pool = pool or draw(st.sampled_from(["int", "int", "str", "tuple"]))
-    names = STATE_POOLS[pool][:n] if isinstance(pool, str) else list(pool)[:n]
+    if isinstance(pool, str) and draw(st.integers(0, 3)) == 0:
+        # state names are arbitrary hashables: a subset of the pool in a drawn order (gaps, no state 0,
+        # numbers that are not 0..n-1), so that two machines may also have disjoint state sets
+        names = draw(st.lists(st.sampled_from(STATE_POOLS[pool]), min_size=n, max_size=n, unique_by=repr))
+    else:
+        names = STATE_POOLS[pool][:n] if isinstance(pool, str) else list(pool)[:n]
     n = len(names)
     syms = list(alphabet) + ([""] if eps else [])
     k = draw(st.integers(0, max_arcs))
@@ -539,13 +546,22 @@ def automaton(draw, regime="QQ", max_states=4, max_arcs=8, alphabet=("a", "b"), 
         start = [[names[0], _end_weight(draw, regime)]]
     if boost and not stop:
         stop = [[names[n - 1], _end_weight(draw, regime)]]
-    return {"states": names, "start": start, "stop": stop, "arcs": arcs, "regime": regime, "acyclic": bool(acyclic), "alphabet": list(alphabet), "api": draw(st.sampled_from(["add", "add", "add", "set"])), "signed": is_signed}
+    wide = False
+    if dynrange and regime in ("REAL", "FLOAT") and draw(st.integers(0, 2)) == 0:
+        # re-weighting by a potential phi: start/phi(q), w*phi(q)/phi(r), stop*phi(q).  Every path keeps
+        # its weight, but single arcs now range over 1e-14 .. 1e14
+        phi = {repr(q): Fraction(draw(st.sampled_from(["1/10000000", "1", "10000000"]))) for q in names}
+        arcs = [[q, a, r, F(Fraction(w) * phi[repr(q)] / phi[repr(r)])] for q, a, r, w in arcs]
+        start = [[q, F(Fraction(w) / phi[repr(q)])] for q, w in start]
+        stop = [[q, F(Fraction(w) * phi[repr(q)])] for q, w in stop]
+        wide = True
+    return {"states": names, "start": start, "stop": stop, "arcs": arcs, "regime": regime, "acyclic": bool(acyclic), "alphabet": list(alphabet), "api": draw(st.sampled_from(["add", "add", "add", "set"])), "signed": is_signed, "wide": wide}
 
 
 @st.composite
-def transducer(draw, regime="QQ", max_states=3, max_arcs=6, A=("a", "b"), B=("a", "b"), acyclic=False, boost=None, min_states=1):
+def transducer(draw, regime="QQ", max_states=3, max_arcs=6, A=("a", "b"), B=("a", "b"), acyclic=False, boost=None, min_states=1, dynrange=False):
     lab = st.tuples(st.sampled_from(list(A) + [""]), st.sampled_from(list(B) + [""])).map(list)
-    m = draw(automaton(regime=regime, max_states=max_states, max_arcs=max_arcs, acyclic=acyclic, pool="int", boost=boost, labels=lab, min_states=min_states))
+    m = draw(automaton(regime=regime, max_states=max_states, max_arcs=max_arcs, acyclic=acyclic, pool="int", boost=boost, labels=lab, min_states=min_states, dynrange=dynrange))
     m["arcs"] = [[q, ab[0], ab[1], r, w] for q, ab, r, w in m["arcs"]]
     return m
 
@@ -556,6 +572,10 @@ def classify_automaton(m):
         out.add("built_with_set_api")
     if m.get("signed"):
         out.add("signed_weights")
+    if m.get("wide"):
+        out.add("wide_dynamic_range")
+    if not any(list(m["states"]) == STATE_POOLS[k][: len(m["states"])] for k in STATE_POOLS):
+        out.add("gapped_state_names")
     arcs = m["arcs"]
     tr = len(arcs[0]) == 5 if arcs else False
     if tr:
